@@ -143,6 +143,17 @@ func (t txEach) ListPage(p, a string, l int) (out []string, err error) {
 	return
 }
 
+// txWriteParentRead: every mutation runs in its own committed transaction, every
+// read goes to the parent backend outside any transaction (a committed transaction
+// must be visible through whatever the parent layer remembers of earlier reads).
+type txWriteParentRead struct{ txEach }
+
+func (t txWriteParentRead) Get(k string) ([]byte, bool, error)  { return physKV{t.b}.Get(k) }
+func (t txWriteParentRead) List(p string) ([]string, error)     { return t.b.List(bg, p) }
+func (t txWriteParentRead) ListPage(p, a string, l int) ([]string, error) {
+	return t.b.ListPage(bg, p, a, l)
+}
+
 // txOpen: the first half (rounded down) of the history is unknown in advance,
 // so this adapter commits nothing: every operation runs inside ONE open
 // read-write transaction and the reads see its uncommitted writes.
@@ -397,7 +408,7 @@ func stacks(t *testing.T) []*kvc.Stack {
 		if txn {
 			name = "cache-txnbackend"
 		}
-		out = append(out, &kvc.Stack{Name: name, ReadOps: true, New: func() (kvc.KV, func(), error) {
+		out = append(out, &kvc.Stack{Name: name, ReadOps: true, CancelOps: true, New: func() (kvc.KV, func(), error) {
 			c := physical.NewCache(newInmem(txn), 0, log.NewNullLogger(), metrics.Default())
 			c.SetEnabled(true)
 			return physKV{c}, nop, nil
@@ -405,6 +416,21 @@ func stacks(t *testing.T) []*kvc.Stack {
 	}
 	out = append(out, &kvc.Stack{Name: "cache-tx-each", ReadOps: true, New: func() (kvc.KV, func(), error) {
 		c := physical.NewCache(newInmem(true), 0, log.NewNullLogger(), metrics.Default())
+		c.SetEnabled(true)
+		return txEach{c.(physical.TransactionalBackend)}, nop, nil
+	}})
+	// configured cache sizes: the default, and a small one (the per-transaction cache
+	// is sized as a fraction of it)
+	for _, size := range []int{0, 32} {
+		size := size
+		out = append(out, &kvc.Stack{Name: fmt.Sprintf("cache%d-txwrite-parentread", size), ReadOps: true, New: func() (kvc.KV, func(), error) {
+			c := physical.NewCache(newInmem(true), size, log.NewNullLogger(), metrics.Default())
+			c.SetEnabled(true)
+			return txWriteParentRead{txEach{c.(physical.TransactionalBackend)}}, nop, nil
+		}})
+	}
+	out = append(out, &kvc.Stack{Name: "cache32-tx-each", ReadOps: true, New: func() (kvc.KV, func(), error) {
+		c := physical.NewCache(newInmem(true), 32, log.NewNullLogger(), metrics.Default())
 		c.SetEnabled(true)
 		return txEach{c.(physical.TransactionalBackend)}, nop, nil
 	}})
